@@ -572,3 +572,25 @@ pub fn descriptor(rng: &mut Rng, u: &Universe) -> String {
         }
     }
 }
+
+/// strings longer than 127 bytes (two-byte LEB128 length prefixes), shared and non-ASCII strings,
+/// classes without members
+pub fn mapping_long_strings(rng: &mut Rng) -> Vec<u8> {
+    let long = |rng: &mut Rng, n: usize| -> String {
+        let mut s = String::from("com.example.");
+        while s.len() < n {
+            s.push_str(rng.pick(&["Very", "Long", "Näme", "Segment", "$", "X"]));
+        }
+        s
+    };
+    let mut out = String::new();
+    let extra = rng.below(200);
+    let shared = long(rng, 130 + extra);
+    out.push_str(&format!("{} -> a:\n", shared));
+    out.push_str(&format!("    1:2:void {}.run(int):3:4 -> m\n", shared));
+    out.push_str(&format!("    void {}() -> {}\n", long(rng, 128).replace('.', "_"), "n"));
+    out.push_str("com.example.Empty -> b:\n");
+    out.push_str(&format!("é.Ünï -> {}:\n", long(rng, 300).replace("com.example.", "o.")));
+    out.push_str(&format!("    java.lang.String fld -> f\n    3:3:void q({}) -> m\n", long(rng, 140)));
+    out.into_bytes()
+}
